@@ -8,3 +8,4 @@ EXPLANATION = ("outcome -> (status, headers, content type, body) table extracted
 
 def run(rep, W, ctx):
     H.c14_tables(rep, W)
+    H.handler_args(rep, W)
